@@ -8,6 +8,7 @@ interleavings of operations of any number of simulators with unrelated
 activity on the global generator.
 -/
 import FDAProofs.Lemmas.SimulationRng
+import FDAModel.Generated.Eigenvalues
 import Mathlib.Analysis.SpecialFunctions.Pow.Real
 import Mathlib.Analysis.SpecialFunctions.Trigonometric.Basic
 
@@ -240,6 +241,88 @@ theorem eigenvalues_wiener_pos_noninc_real (i : ℕ) : 0 < eigWienerR i ∧ eigW
 /-- with `exp` positive, a geometric path over the reals is positive as well: the factors of
 `_geometric_brownian` are `exp(…)` values -/
 theorem geometric_factors_positive_real (x : ℝ) : 0 < Real.exp x := Real.exp_pos x
+
+/-! ### the model is what the source says NOW
+
+`FDAModel/Generated/Eigenvalues.lean` is re-generated on every run from
+`FDApy/simulation/karhunen.py` (harness/c19.py `translate()`): element `i` (0-based) of each named
+sequence exactly as the source computes it, the length of the sequence, the argument of `exp`,
+base and exponent of the real power, `π` as a parameter, and the cluster sizes of `_make_coef`.
+The theorems below tie those generated definitions to the model's; an edit of a formula in the
+Python breaks them. -/
+
+open FDA.Generated in
+/-- linear: the source formula is the model's, `n` elements -/
+theorem generated_linear (n i : ℕ) : eigLinearSrc n i = eigLinear n i ∧ eigLinearLenSrc n = n := by
+  refine ⟨?_, by unfold eigLinearLenSrc; omega⟩
+  unfold eigLinearSrc eigLinear
+  ring
+
+open FDA.Generated in
+theorem generated_quadratic (n i : ℕ) : eigQuadraticSrc n i = eigQuadratic n i ∧ eigQuadraticLenSrc n = n := by
+  refine ⟨?_, by unfold eigQuadraticLenSrc; omega⟩
+  unfold eigQuadraticSrc eigQuadratic
+  ring
+
+open FDA.Generated in
+theorem generated_inverse (n i : ℕ) : eigInverseSrc n i = eigInverse n i ∧ eigInverseLenSrc n = n := by
+  refine ⟨?_, by unfold eigInverseLenSrc; omega⟩
+  unfold eigInverseSrc eigInverse
+  ring
+
+open FDA.Generated in
+/-- hence the sequences *as the source computes them* are positive and non-increasing -/
+theorem source_sequences_pos_noninc (n i : ℕ) :
+    (i + 1 < n → 0 < eigLinearSrc n i ∧ 0 < eigLinearSrc n (i + 1) ∧ eigLinearSrc n (i + 1) ≤ eigLinearSrc n i) ∧
+    (0 < n → 0 < eigLinearSrc n 0) ∧
+    (0 < eigQuadraticSrc n i ∧ eigQuadraticSrc n (i + 1) ≤ eigQuadraticSrc n i) ∧
+    (0 < eigInverseSrc n i ∧ eigInverseSrc n (i + 1) ≤ eigInverseSrc n i) := by
+  simp only [(generated_linear _ _).1, (generated_quadratic _ _).1, (generated_inverse _ _).1]
+  exact ⟨eigenvalues_linear_pos_noninc n i, eigenvalues_linear_first_pos n,
+    eigenvalues_quadratic_pos_noninc n i, eigenvalues_inverse_pos_noninc n i⟩
+
+open FDA.Generated in
+/-- exponential: the source takes `exp` of `-i/2` (0-based `i`), `n` elements — the closed form of
+`eigExponentialR` -/
+theorem generated_exponential_skeleton (n i : ℕ) :
+    eigExponentialArgSrc n i = -(i : ℚ) / 2 ∧ eigExponentialLenSrc n = n ∧
+    eigExponentialR i = Real.exp ((eigExponentialArgSrc n i : ℚ) : ℝ) := by
+  have h : eigExponentialArgSrc n i = -(i : ℚ) / 2 := by unfold eigExponentialArgSrc; ring
+  refine ⟨h, by unfold eigExponentialLenSrc; omega, ?_⟩
+  rw [h]; unfold eigExponentialR; push_cast; rfl
+
+open FDA.Generated in
+/-- sqrt: base `i + 1`, exponent `-1/2` — the closed form of `eigSqrtR` -/
+theorem generated_sqrt_skeleton (n i : ℕ) :
+    eigSqrtBaseSrc n i = (i : ℚ) + 1 ∧ eigSqrtExpSrc = -(1 / 2) ∧ eigSqrtLenSrc n = n ∧
+    eigSqrtR i = ((eigSqrtBaseSrc n i : ℚ) : ℝ) ^ ((eigSqrtExpSrc : ℚ) : ℝ) := by
+  have hb : eigSqrtBaseSrc n i = (i : ℚ) + 1 := by unfold eigSqrtBaseSrc; ring
+  have he : eigSqrtExpSrc = -(1 / 2) := by unfold eigSqrtExpSrc; norm_num
+  refine ⟨hb, he, by unfold eigSqrtLenSrc; omega, ?_⟩
+  rw [hb, he]; unfold eigSqrtR; push_cast; rfl
+
+open FDA.Generated in
+/-- Wiener: with `π` as a parameter the source computes `1 / ((π/2)(2(i+1) − 1))²`, `n` elements;
+positive and non-increasing for every positive value of the parameter -/
+theorem generated_wiener (pi : ℚ) (n i : ℕ) (hpi : 0 < pi) :
+    eigWienerSrc pi n i = 1 / ((pi / 2) * (2 * ((i : ℚ) + 1) - 1)) ^ 2 ∧ eigWienerLenSrc n = n ∧
+    0 < eigWienerSrc pi n i ∧ eigWienerSrc pi n (i + 1) ≤ eigWienerSrc pi n i := by
+  have h : ∀ j : ℕ, eigWienerSrc pi n j = 1 / ((pi / 2) * (2 * ((j : ℚ) + 1) - 1)) ^ 2 := by
+    intro j; unfold eigWienerSrc; ring
+  have hi : (0 : ℚ) ≤ (i : ℚ) := Nat.cast_nonneg i
+  have h1 : 0 < (pi / 2) * (2 * ((i : ℚ) + 1) - 1) := mul_pos (by positivity) (by linarith)
+  refine ⟨h i, by unfold eigWienerLenSrc; omega, ?_, ?_⟩
+  · rw [h i]; positivity
+  · rw [h i, h (i + 1)]
+    apply one_div_le_one_div_of_le (by positivity)
+    apply pow_le_pow_left₀ (le_of_lt h1)
+    push_cast
+    nlinarith
+
+open FDA.Generated in
+/-- the cluster sizes of `_make_coef` as the source computes them are the model's `clusterSize` -/
+theorem generated_cluster_size (n k g : ℕ) : clusterSizeSrc n k g = clusterSize n k g := by
+  unfold clusterSizeSrc clusterSize; rfl
 
 /-! ### Brownian paths and the grid guard -/
 
